@@ -449,7 +449,7 @@ def main():
         # ---- configured bounded drivers (labelled bounded, never counted as proved)
         bcfg = [b for b in cfg.get("bounded", []) if args.tier == "thorough" or b.get("tier", "thorough") == "quick"]
         if bcfg and not args.no_kani:
-            rr = replay_run.run_drivers(REPO, VERIF, [b["driver"] for b in bcfg], outdir)
+            rr = replay_run.run_drivers(REPO, VERIF, [b["driver"] for b in bcfg], outdir, timeout=(2700 if args.tier == "thorough" else 1500))
             cmds.append(rr["cmd"])
             for b in bcfg:
                 j = rr["results"].get(b["driver"])
